@@ -31,7 +31,11 @@ func c05Observe(e *executor, r *stepResult, ri *runInfo) {
 var c05TA = &propTest{
 	prop: "C05", unit: "ta-histories",
 	gen: func(t *rapid.T) *hcCase {
-		return genTACase(t, genOpts{Policy: polTA, MinOps: 8, MaxOps: 40, Reconfig: true, FillPools: true})
+		c := genTACase(t, genOpts{Policy: polTA, MinOps: 8, MaxOps: 40, Reconfig: true, FillPools: true})
+		if rapid.IntRange(0, 2).Draw(t, "failureOnLeftoversMotif") == 0 {
+			failureOnLeftoversMotif(t, c)
+		}
+		return c
 	},
 	invs:    []invFn{checkRuntimeView},
 	observe: c05Observe,
@@ -39,3 +43,22 @@ var c05TA = &propTest{
 
 func TestVerifC05TA(t *testing.T)     { c05TA.run(t) }
 func TestVerifC05Replay(t *testing.T) { c05TA.replay(t) }
+
+// failureOnLeftoversMotif inserts, somewhere in the second half of a history,
+// a request that leaves undeliverable changes behind (the removal of a
+// container that was never stopped) directly followed by a request that
+// fails (an update nobody can satisfy): whatever the first one queued must
+// survive the second one's error path.
+func failureOnLeftoversMotif(t *rapid.T, c *hcCase) {
+	if len(c.Ops) < 4 {
+		return
+	}
+	at := rapid.IntRange(len(c.Ops)/2, len(c.Ops)).Draw(t, "motifAt")
+	motif := []hcOp{
+		{Kind: "removelive", A: rapid.IntRange(0, 7).Draw(t, "motifVictim")},
+		{Kind: "update", A: rapid.IntRange(0, 7).Draw(t, "motifTarget"), Ctr: &hcCtrSpec{Name: "x", MilliCPU: 640000, LimitCPU: 640000}},
+	}
+	ops := append([]hcOp{}, c.Ops[:at]...)
+	ops = append(ops, motif...)
+	c.Ops = append(ops, c.Ops[at:]...)
+}
